@@ -142,6 +142,48 @@ def run(run):
                     mag_descs.append(d)
                 if rng.random() < (0.1 if quick else 0.03) and nets.fits32(ref) and ref.size <= 64 and all(np.all(a <= 4) for a in I):
                     pass
+    # ---- exactly vanishing slices: a tensor has zero slabs along a sliced index, so some slices are exactly zero while
+    #      the total is not; with check_zero=True (the documented way to survive zero intermediates) the stripped result
+    #      must still equal the plain one
+    for net in pool:
+        if net.N < 2 or net.K < 1:
+            continue
+        for _ in range(2 if quick else 4):
+            ix = rng.randint(1, net.K)
+            if net.dim(ix) < 3 or not net.on(ix):
+                continue
+            ssa = nets.tree_to_ssa(nets.rand_tree(rng, net.N), net.N, rng)
+            I = pos_arrays(net, rng)
+            t = rng.choice(net.on(ix))
+            zero_vals = rng.sample(range(net.dim(ix)), net.dim(ix) - 1)      # all but one value vanish (>= 2 zero slices)
+            ax = net.inputs[t].index(ix)
+            sel = [slice(None)] * I[t].ndim
+            for v in zero_vals:
+                sel[ax] = v
+                I[t][tuple(sel)] = 0.0
+            ref = nets.refeval(net, I)
+            if not np.all(ref != 0):
+                continue
+            d = {"net": net.to_json(), "ssa": [list(p) for p in ssa], "sliced": [ix], "zero_slab": [t, ix, zero_vals]}
+            run.count()
+            run.nontrivial(("zero-slices", net.eq(), str(ssa), ix, str(zero_vals)))
+            try:
+                with core.watchdog(60), np.errstate(all="ignore"):
+                    tree = observe.build_tree(ct, net, ssa)
+                    tree.remove_ind_(net.lab[ix])
+                    m, e = tree.contract(I, strip_exponent=True, check_zero=True)
+                    val = np.asarray(m, dtype=np.float64) * 10.0 ** float(e)
+                ok = val.shape == ref.shape and np.all(np.isfinite(val)) and np.allclose(val, ref, rtol=1e-9)
+            except Exception as ex:
+                run.violation(f"strip_exponent + check_zero with exactly vanishing slices raised {core.exc_text(ex)} eq={net.eq()} "
+                              f"sliced={net.lab[ix]} zero slab of tensor {t} at values {zero_vals}", d,
+                              tags={"exact-zero-slices", "raised", "output-sliced" if ix in net.output else "inner-sliced"})
+                continue
+            if not ok:
+                run.violation(f"strip_exponent + check_zero: result {val.tolist()} differs from the plain non-zero result {ref.tolist()} "
+                              f"when >= 2 slices vanish exactly: eq={net.eq()} dims={net.dims} ssa={ssa} sliced={net.lab[ix]} "
+                              f"zero slab of tensor {t} at values {zero_vals}"[:600], d,
+                              tags={"exact-zero-slices", "value", "output-sliced" if ix in net.output else "inner-sliced"})
     # the evaluator itself, tied to the spec on canonical arrays for a sample of the networks
     for net in pool[: (12 if quick else 40)]:
         ref = nets.refeval(net, nets.canon_arrays(net))
